@@ -45,6 +45,8 @@ def run(out, sc, tier, seed):
     shards = run_driver(sc, "url", {"calls_file": str(cfile)}, "split", nslices=14, shard_size=3000)
     # beyond the bounds
     shards += run_driver(sc, "url", {"gen": "c07", "mode": "random", "n": nrand, "seed": seed}, "rnd", nslices=8)
+    shards += run_driver(sc, "url", {"gen": "c07", "mode": "grid", "n": nrand, "seed": seed,
+                                     "auth_step": 11 if tier == "quick" else 1}, "grid", nslices=12)
     results = validate_shards("TraceUrl", trace_cfg("C07"), shards, work)
     recs = load_records(shards)
     if sum(r.records for r in results) != len(recs):
